@@ -24,6 +24,7 @@ package block_test
 // the id of a block of the chain, carries exactly that block's body.
 
 import (
+	"bufio"
 	"bytes"
 	"encoding/json"
 	"fmt"
@@ -58,7 +59,12 @@ type c08Case struct {
 	Donor  int    `json:"donor,omitempty"` // splice/cross: other block
 	Parts  int    `json:"parts,omitempty"` // cross: bit 0 patch txs, 1 normal txs, 2 votes, 3 BTP digest; inner: 4 votes, 8 digest, 16+i tx i
 	Len    int    `json:"len,omitempty"`   // short: length
-	Reader string `json:"reader"`          // seek (bytes.Reader) | stream (non-seekable, one byte at a time)
+	Reader string `json:"reader"`          // seek (bytes.Reader) | stream (non-seekable, one byte at a time); env: see c08EnvKinds
+	Seq    []int  `json:"seq,omitempty"`   // env: blocks encoded back to back and decoded consecutively from ONE reader
+	Pre    []int  `json:"pre,omitempty"`   // env: blocks whose encodings precede the stream (the reader is positioned after them)
+	Garb   int    `json:"garb,omitempty"`  // env: 1 = the prefix is garbage of the same length; with empty Pre: one garbage byte
+	How    string `json:"how,omitempty"`   // env: how the reader got to the start of the stream: read | seek
+	Tgt    string `json:"tgt,omitempty"`   // env: bdf (BlockDataFactory) | bm (Manager.NewBlockDataFromReader) | peek (block.PeekVersion)
 }
 
 func (c c08Case) key() string {
@@ -267,6 +273,10 @@ var c08Seeds = [][]byte{
 // input builds the byte string of a case.
 func (w *c08World) input(c c08Case) []byte {
 	var e []byte
+	if c.Fam == "env" {
+		data, _, _ := w.envData(c)
+		return data
+	}
 	if c.Fam != "short" && c.Fam != "seed" && c.Fam != "inner" {
 		e = w.blocks[c.Blk].enc
 	}
@@ -733,10 +743,276 @@ func c08ConfirmRunaway(c c08Case, nBlocks int) (runaway bool, out string, err er
 	return ra2, out1 + " | " + out2, nil
 }
 
+// ---------------------------------------------------------------------------
+// Reader environment. A block is not only decoded from a fresh reader at offset
+// 0: the reader may be seekable or not, may return short reads, may already
+// have been read / seeked past a prefix (garbage or other blocks), and several
+// blocks may be decoded consecutively from ONE reader.
+
+// c08EnvKinds: reader kinds. The first five support consecutive decodes (a
+// seeker, or a caller-owned bufio.Reader); for the last two PeekVersion wraps
+// the reader into its own bufio.Reader, which may read ahead, so only the
+// first decode is defined.
+var c08EnvKinds = []string{"seek", "fseek", "seek1", "bufio", "bufio1", "stream", "buffer"}
+
+func c08EnvSequential(kind string) bool { return kind != "stream" && kind != "buffer" }
+func c08EnvSeeker(kind string) bool     { return kind == "seek" || kind == "fseek" || kind == "seek1" }
+
+// c08Seeker is a file-like io.ReadSeeker over a byte slice; chunk > 0 limits
+// every Read to that many bytes.
+type c08Seeker struct {
+	data  []byte
+	pos   int64
+	chunk int
+}
+
+func (r *c08Seeker) Read(p []byte) (int, error) {
+	if r.pos >= int64(len(r.data)) {
+		return 0, io.EOF
+	}
+	if len(p) == 0 {
+		return 0, nil
+	}
+	n := len(p)
+	if r.chunk > 0 && n > r.chunk {
+		n = r.chunk
+	}
+	n = copy(p[:n], r.data[r.pos:])
+	r.pos += int64(n)
+	return n, nil
+}
+
+func (r *c08Seeker) Seek(off int64, whence int) (int64, error) {
+	var np int64
+	switch whence {
+	case io.SeekStart:
+		np = off
+	case io.SeekCurrent:
+		np = r.pos + off
+	case io.SeekEnd:
+		np = int64(len(r.data)) + off
+	default:
+		return 0, fmt.Errorf("bad whence")
+	}
+	if np < 0 {
+		return 0, fmt.Errorf("negative position")
+	}
+	r.pos = np
+	return np, nil
+}
+
+func c08EnvReader(kind string, data []byte) io.Reader {
+	switch kind {
+	case "seek":
+		return bytes.NewReader(data)
+	case "fseek":
+		return &c08Seeker{data: data}
+	case "seek1":
+		return &c08Seeker{data: data, chunk: 1}
+	case "bufio":
+		return bufio.NewReader(bytes.NewReader(data))
+	case "bufio1":
+		return bufio.NewReaderSize(&oneByteReader{b: data}, 16)
+	case "stream":
+		return &oneByteReader{b: data}
+	case "buffer":
+		return bytes.NewBuffer(append([]byte(nil), data...))
+	}
+	panic("unknown reader kind " + kind)
+}
+
+var c08EnvTail = []byte{0xde, 0xad, 0x00}
+
+// envData returns prefix ‖ enc(seq[0]) ‖ enc(seq[1]) … ‖ tail, the offset of the
+// stream, and the offsets at which every block of the stream ends.
+func (w *c08World) envData(c c08Case) (data []byte, start int, ends []int) {
+	for _, b := range c.Pre {
+		data = append(data, w.blocks[b].enc...)
+	}
+	if len(c.Pre) == 0 && c.Garb != 0 {
+		data = append(data, 0xa7)
+	} else if c.Garb != 0 {
+		for i := range data {
+			data[i] = byte(0xa7 + 31*i)
+		}
+	}
+	start = len(data)
+	for _, b := range c.Seq {
+		data = append(data, w.blocks[b].enc...)
+		ends = append(ends, len(data))
+	}
+	data = append(data, c08EnvTail...)
+	return
+}
+
+// evalEnv runs one reader-environment case on the real code.
+func (w *c08World) evalEnv(c c08Case) (good bool, fails []c08Fail) {
+	fail := func(sig, f string, a ...interface{}) {
+		fails = append(fails, c08Fail{sig, fmt.Sprintf(f, a...)})
+	}
+	data, start, ends := w.envData(c)
+	rd := c08EnvReader(c.Reader, data)
+	// bring the reader to the start of the stream
+	if start > 0 {
+		if c.How == "seek" {
+			if _, err := rd.(io.Seeker).Seek(int64(start), io.SeekStart); err != nil {
+				fail("env-harness", "seek failed: %v", err)
+				return
+			}
+		} else if n, err := io.CopyN(io.Discard, rd, int64(start)); err != nil || n != int64(start) {
+			fail("env-harness", "skipping the prefix failed: %v", err)
+			return
+		}
+	}
+	env := fmt.Sprintf("%s/%s/start=%d(%s)", c.Tgt, c.Reader, start, c.How)
+	if c.Tgt == "peek" {
+		var v int
+		var r2 io.Reader
+		var err error
+		if p := ev.Catch(func() { v, r2, err = block.PeekVersion(rd) }); p != "" {
+			fail("panic-in-PeekVersion:"+c.Reader, "PeekVersion panicked: %s", p)
+			return
+		}
+		if err != nil || v != module.BlockVersion2 {
+			fail("PeekVersion-wrong-version:"+c.Reader, "%s: PeekVersion = %d, %v on a version-2 block", env, v, err)
+			return
+		}
+		rest, err := io.ReadAll(r2)
+		if err != nil || !bytes.Equal(rest, data[start:]) {
+			fail("PeekVersion-moves-reader:"+c.Reader+":"+c.How, "%s: after PeekVersion the returned reader yields %d bytes (%s…), want the %d bytes from the reader's position on", env, len(rest), c08Hex(rest), len(data)-start)
+			return
+		}
+		return true, nil
+	}
+	for i, b := range c.Seq {
+		if i > 0 && !c08EnvSequential(c.Reader) {
+			break
+		}
+		ob := w.blocks[b]
+		var bd module.BlockData
+		var err error
+		if p := ev.Catch(func() {
+			if c.Tgt == "bm" {
+				bd, err = w.nd.BM.NewBlockDataFromReader(rd)
+			} else {
+				bd, err = w.bdf.NewBlockDataFromReader(rd)
+			}
+		}); p != "" {
+			fail("panic-in-decode:"+c08PanicClass(p), "%s: decode %d of the stream panicked: %s", env, i, p)
+			return
+		}
+		if err != nil {
+			fail("env-valid-block-rejected:"+c.Reader+":"+c.How, "%s: block %d of the stream (chain block %d) does not decode: %v", env, i, b, err)
+			return
+		}
+		var re []byte
+		if p := ev.Catch(func() { re = blkfx.Marshal(bd) }); p != "" {
+			fail("panic-after-decode:"+c08PanicClass(p), "%s: re-marshal panicked: %s", env, p)
+			return
+		}
+		if !bytes.Equal(bd.ID(), ob.id) || bd.Height() != ob.blk.Height() || !bytes.Equal(re, ob.enc) {
+			which := "an unknown block"
+			if x, ok := w.byID[string(bd.ID())]; ok {
+				which = fmt.Sprintf("chain block of height %d", x.blk.Height())
+			}
+			fail("env-wrong-block-decoded:"+c.Reader+":"+c.How, "%s: decode %d of the stream must give chain block %d (height %d, id %x) but gave %s (height %d, id %x)",
+				env, i, b, ob.blk.Height(), ob.id, which, bd.Height(), bd.ID())
+			return
+		}
+		if sk, ok := rd.(io.Seeker); ok {
+			pos, err := sk.Seek(0, io.SeekCurrent)
+			if err != nil || pos != int64(ends[i]) {
+				fail("env-reader-not-at-block-end:"+c.Reader+":"+c.How, "%s: after decode %d the reader is at %d (%v), the block ends at %d", env, i, pos, err, ends[i])
+				return
+			}
+		}
+	}
+	if c08EnvSequential(c.Reader) {
+		rest, err := io.ReadAll(rd)
+		if err != nil || !bytes.Equal(rest, c08EnvTail) {
+			fail("env-reader-not-at-block-end:"+c.Reader+":"+c.How, "%s: after the last decode %d bytes are left (%s), want exactly the %d tail bytes", env, len(rest), c08Hex(rest), len(c08EnvTail))
+			return
+		}
+	}
+	return true, nil
+}
+
+// enumEnv: every block x every reader kind x every prefix situation (none, one
+// garbage byte, another block, two other blocks; each as valid blocks and as
+// garbage of the same length; reached by reading and, for seekers, by Seek) x
+// {BlockDataFactory, Manager.NewBlockDataFromReader, PeekVersion}; and every
+// ordered pair and triple of distinct blocks decoded consecutively from one
+// reader of every kind (with and without a garbage byte in front).
+func (w *c08World) enumEnv(fn func(c c08Case)) {
+	nb := len(w.blocks)
+	hows := func(kind string, start bool) []string {
+		if !start {
+			return []string{""}
+		}
+		if c08EnvSeeker(kind) {
+			return []string{"read", "seek"}
+		}
+		return []string{"read"}
+	}
+	for _, tgt := range []string{"bdf", "bm", "peek"} {
+		for _, kind := range c08EnvKinds {
+			for b := 0; b < nb; b++ {
+				emit := func(pre []int, garb int) {
+					for _, how := range hows(kind, len(pre) > 0 || garb != 0) {
+						fn(c08Case{Fam: "env", Blk: b, Seq: []int{b}, Pre: pre, Garb: garb, How: how, Reader: kind, Tgt: tgt})
+					}
+				}
+				emit(nil, 0)
+				emit(nil, 1)
+				for d := 0; d < nb; d++ {
+					if d == b {
+						continue
+					}
+					emit([]int{d}, 0)
+					emit([]int{d}, 1)
+					for e := 0; e < nb; e++ {
+						if e == b || e == d {
+							continue
+						}
+						emit([]int{d, e}, 0)
+						emit([]int{d, e}, 1)
+					}
+				}
+			}
+			if tgt == "peek" {
+				continue
+			}
+			for a := 0; a < nb; a++ {
+				for b := 0; b < nb; b++ {
+					if b == a {
+						continue
+					}
+					for _, garb := range []int{0, 1} {
+						for _, how := range hows(kind, garb != 0) {
+							fn(c08Case{Fam: "env", Blk: a, Seq: []int{a, b}, Garb: garb, How: how, Reader: kind, Tgt: tgt})
+						}
+					}
+					for d := 0; d < nb; d++ {
+						if d == a || d == b {
+							continue
+						}
+						for _, garb := range []int{0, 1} {
+							for _, how := range hows(kind, garb != 0) {
+								fn(c08Case{Fam: "env", Blk: a, Seq: []int{a, b, d}, Garb: garb, How: how, Reader: kind, Tgt: tgt})
+							}
+						}
+					}
+				}
+			}
+		}
+	}
+}
+
 // enumerate calls fn for every case of the tier in a fixed order.
 func (w *c08World) enumerate(thorough bool, fn func(c c08Case)) {
 	readers := []string{"seek", "stream"}
 	nb := len(w.blocks)
+	w.enumEnv(fn)
 	for _, rk := range readers {
 		for b := 0; b < nb; b++ {
 			fn(c08Case{Fam: "id", Blk: b, Reader: rk})
@@ -892,11 +1168,21 @@ type c08Current struct {
 }
 
 func (w *c08World) check(r *ev.Run, c c08Case, st *c08Stats, cur *atomic.Pointer[c08Current]) {
-	in := w.input(c)
 	if cur != nil {
 		cur.Store(&c08Current{c, time.Now()})
 		defer cur.Store(nil)
 	}
+	if c.Fam == "env" {
+		ok, fails := w.evalEnv(c)
+		if ok {
+			st.decoded["env:"+c.Tgt+":"+c.Reader]++
+		}
+		for _, f := range fails {
+			r.Violation(f.sig, fmt.Sprintf("%s; case=%s", f.detail, c.key()), c)
+		}
+		return
+	}
+	in := w.input(c)
 	v, fails := w.evaluate(c, in)
 	if v.decoded {
 		st.decoded[c.Fam]++
@@ -923,7 +1209,7 @@ func TestVerifC08(t *testing.T) {
 	}
 	r := ev.Start(t, "C08", "exploration")
 	r.SetBudget(75*time.Second, 13*time.Minute)
-	r.Rule("for every block of a real fixture chain (0/1/3 txs, with/without votes, NTS proofs, BTP digest, NSFilter): its own encoding; every truncation, single-byte deletion, duplication, adjacent swap, one trailing byte (256 values), same-offset splice with every other block, header/body cross-over (non-empty subset of {patch,normal,votes,digest} from every other block), every proper prefix of the votes / BTP digest / each transaction re-framed into the block; every single-byte substitution (position x 255 values; quick: blocks 2 and 3, thorough: all blocks); thorough adds every single-byte insertion (position x 256); plus all byte strings of length <= 2 and the two upstream fuzz seeds; each through a seekable and a one-byte-at-a-time reader (substitution/insertion: seekable only in quick); non-trivial = distinct input actually submitted to BlockDataFactory.NewBlockDataFromReader")
+	r.Rule("for every block of a real fixture chain (0/1/3 txs, with/without votes, NTS proofs, BTP digest, NSFilter): its own encoding; every truncation, single-byte deletion, duplication, adjacent swap, one trailing byte (256 values), same-offset splice with every other block, header/body cross-over (non-empty subset of {patch,normal,votes,digest} from every other block), every proper prefix of the votes / BTP digest / each transaction re-framed into the block; every single-byte substitution (position x 255 values; quick: blocks 2 and 3, thorough: all blocks); thorough adds every single-byte insertion (position x 256); plus all byte strings of length <= 2 and the two upstream fuzz seeds; each through a seekable and a one-byte-at-a-time reader (substitution/insertion: seekable only in quick); reader environments: every block x 7 reader kinds (bytes.Reader, file-like seeker, seeker with 1-byte reads, bufio.Reader, 16-byte bufio over a 1-byte stream, 1-byte stream, bytes.Buffer) x prefix {none, 1 garbage byte, every other block, every ordered pair of other blocks; as valid blocks and as garbage of the same length; skipped by reading and, for seekers, by Seek} x {BlockDataFactory, Manager.NewBlockDataFromReader, PeekVersion}, and every ordered pair and triple of distinct blocks decoded consecutively from one reader of every kind; non-trivial = distinct input actually submitted to BlockDataFactory.NewBlockDataFromReader")
 	r.Assume("fixture: real block.Manager / service transitions of test.Node (basic platform, MapDB), fixed secp256k1 keys, one BTP network (eth); only block version 2 exists in this tree")
 	r.Assume("arbitrary bytes are covered by the structured finite families listed in the rule, not by all 2^(8n) strings")
 
@@ -1122,6 +1408,11 @@ func TestVerifC08(t *testing.T) {
 	}
 	r.Sanity(total.decoded["subst"] > 0 && total.decoded["append"] > 0 || !complete, "C08 vacuity: no mutant decoded successfully (binding checks never ran on a mutant)")
 	r.Sanity(len(total.errs) > 3, "C08 vacuity: only %d distinct rejection messages", len(total.errs))
+	for _, kind := range c08EnvKinds {
+		for _, tgt := range []string{"bdf", "bm", "peek"} {
+			r.Sanity(total.decoded["env:"+tgt+":"+kind] > 0 || !complete, "C08 vacuity: no reader-environment case passed for %s/%s", tgt, kind)
+		}
+	}
 	withDigest, withVotes, withTx := 0, 0, 0
 	for _, s := range sizes {
 		if s["digest_bytes"].(int) > 0 {
